@@ -111,6 +111,31 @@ pub fn decide(s: &str, want: Option<&Value>, sub: &str, st: &mut Stats) {
     st.sample(|| json!({"expression": s, "result": out.brief()}));
 }
 
+/// Whole-expression differential with exact (spelling-preserving) comparison of the value.
+pub fn decide_exact(s: &str, st: &mut Stats) {
+    st.evaluations += 1;
+    st.validated += 1;
+    let rp = rparse::parse(s);
+    let out = crate::implx::impl_search(s, &Value::Null);
+    match (&rp, &out) {
+        (Err(_), Out::CompileErr(_)) => st.outcome("rejected by both"),
+        (Ok(p), Out::Value(g, false)) => {
+            let r = Eval::builtin().search(&p.tree, &Value::Null);
+            match r {
+                Ok(crate::reval::V::J(w)) if serde_json::to_string(&w).unwrap() == serde_json::to_string(g).unwrap() => {
+                    st.nontrivial += 1;
+                    st.outcome("exact value");
+                }
+                other => {
+                    st.violate(viol("C09/value-exact", "literal-pairs", s, &Value::Null, ref_brief(&other), out.brief()));
+                }
+            }
+        }
+        (Ok(_), _) => st.violate(viol("C09/well-formed-form-rejected", "literal-pairs", s, &Value::Null, "a value".into(), out.brief())),
+        (Err(_), _) => st.violate(viol("C09/malformed-form-accepted", "literal-pairs", s, &Value::Null, "rejected".into(), out.brief())),
+    }
+}
+
 pub const CONTENT: &[char] = &['a', '\'', '"', '`', '\\', 'u', '0', '{', ' ', 'é', '😀', '\n', '\u{1}'];
 pub const VALUE_CHARS: &[char] = &['a', '\'', '"', '`', '\\', 'é', '😀', '\n', '\u{1}', '/', 'u'];
 
@@ -163,7 +188,16 @@ fn generate(v: &str, st: &mut Stats) {
     // JSON literal
     let lit = spell_literal(&val);
     match rlex::lex(&lit) {
-        Ok(t) if t.len() == 1 && t[0].1 == Tok::Lit(val.clone()) => decide(&lit, Some(&val), "generate-literal", st),
+        Ok(t) if t.len() == 1 && t[0].1 == Tok::Lit(val.clone()) => {
+            decide(&lit, Some(&val), "generate-literal", st);
+            // the same spelling with other tokens directly adjacent
+            for tpl in ["[{X},`1`]", "{X}||`0`", "to_array({X})", "{a:{X},b:'z'}", "[{X}]", "!{X}", "{X}=={X}", "[{X},{R}]"] {
+                let e = tpl.replace("{X}", &lit).replace("{R}", &raw);
+                if rparse::parse(&e).is_ok() {
+                    decide_exact(&e, st);
+                }
+            }
+        }
         _ => st.count("MODEL_ERROR_literal_not_representable", 1),
     }
     // quoted identifier in three spellings; backticks need no escaping there
@@ -221,6 +255,38 @@ pub fn run(tier: Tier) -> i32 {
         decide(&spell_literal(&wrapped), Some(&wrapped), "generate-literal-json", st);
     });
     st = st.merge(sl);
+    // every C0 control character, DEL and some C1 / format characters inside each quoted form
+    {
+        let mut specials: Vec<char> = (0u32..0x20).filter_map(char::from_u32).collect();
+        specials.extend(['\u{7f}', '\u{80}', '\u{85}', '\u{a0}', '\u{2028}', '\u{2029}', '\u{feff}', '\u{200d}', '\u{301}', '\u{fffd}', '\u{10ffff}']);
+        for c in specials {
+            for (pre, post) in [("", ""), ("a", "b"), ("", "b"), ("a", "")] {
+                let inner = format!("{}{}{}", pre, c, post);
+                for s in [format!("'{}'", inner), format!("\"{}\"", inner), format!("`\"{}\"`", inner), format!("x.\"{}\"", inner), format!("{{\"{}\": x}}", inner), format!("[`\"{}\"`, '{}']", inner, inner)] {
+                    st.states += 1;
+                    decide(&s, None, "control-characters", &mut st);
+                }
+            }
+        }
+    }
+    // pairs of literals in one expression (sharing / interning must not confuse close values)
+    {
+        let lits = ["1", "1.0", "1e0", "[1]", "[1.0]", "{\"a\":1}", "{\"a\":1.0}", "9007199254740993", "9007199254740992", "[9007199254740993]", "[9007199254740992]", "0.3", "0.30000000000000004", "[0.3]", "[0.30000000000000004]", "\"1\"", "null", "[null]", "-0.0", "0", "[0]", "[-0.0]", "\"é\"", "\"😀\"", "[\"é\"]"];
+        for u in lits {
+            for v in lits {
+                for s in [format!("[`{}`, `{}`]", u, v), format!("[`{}`,`{}`,'{}']", u, v, u), format!("{{a:`{}`,b:`{}`}}", u, v), format!("`{}`||`{}`", u, v), format!("[to_array(`{}`)[0], `{}`]", u, v)] {
+                    st.states += 1;
+                    decide_exact(&s, &mut st);
+                }
+            }
+        }
+    }
+    // literal object texts with repeated member names (valid JSON; last one wins)
+    for t in ["{\"a\": 1, \"a\": 2}", "{\"a\":{\"b\":1,\"b\":2},\"a\":3}", "[{\"k\":1,\"k\":[]}]", "{\"\\u0061\":1,\"a\":2}"] {
+        st.states += 1;
+        decide_exact(&format!("`{}`", t), &mut st);
+        decide_exact(&format!("`{}`.a", t), &mut st);
+    }
     // (iii) unquoted identifiers
     let mut s3 = Stats::default();
     char_dfs(&['a', 'Z', '_', '0', '9'], "", 0, tier.pick(3, 4), &mut s3, &mut |s, st| {
